@@ -553,6 +553,9 @@ def emit_fn(f, udir, unit_props, recs, log_global):
         if f.get("head"):
             body = "{ proof { %s }\n" % f["head"].strip() + body[1:]
             log.append(("ghost-head", "", norm_ws(f["head"])[:160]))
+        if f.get("head_raw"):
+            body = "{ %s\n" % f["head_raw"].strip() + body[1:]
+            log.append(("ghost-head", "", norm_ws(f["head_raw"])[:160]))
         if f.get("tail"):
             # wrap: evaluate the original block, then the ghost tail, then yield the value
             body = "{ let r_tail_ = %s; proof { %s } r_tail_ }" % (body, f["tail"].strip())
